@@ -61,7 +61,7 @@ PROPS['C09'] = dict(
 )
 PROPS['C18'] = dict(
     title='strip_comments',
-    units=['depth', 'wrap', 'arms', 'rtmu', 'split', 'derive', 'getstr'],
+    units=['depth', 'wrap', 'arms', 'rtmu', 'split', 'derive', 'getstr', 'pphelp'],
     shims=['A-glue', 'A-pplex'],
     design='DESIGN.md 3/C18',
     technique='contract-based deductive verification (Verus): flag forwarding on the recursion skeleton and at the entry wrappers; arm-guard obligations on the lifted match arms',
@@ -105,7 +105,7 @@ PROPS['C05'] = dict(
 )
 PROPS['C06'] = dict(
     title='pass-through',
-    units=['arms', 'pt', 'glue', 'loc', 'derive', 'getstr'],
+    units=['arms', 'pt', 'glue', 'loc', 'derive', 'getstr', 'pphelp'],
     shims=['A-glue', 'A-str', 'A-pplex'],
     design='DESIGN.md 3/C06',
     technique='contract-based deductive verification (Verus) of the directive-free emission arms (copy exactly the bytes of their own leaf, identity origin) plus once-only obligations',
@@ -115,7 +115,7 @@ PROPS['C06'] = dict(
 )
 PROPS['C10'] = dict(
     title='include',
-    units=['arms', 'depth', 'wrap', 'rtmu', 'glue', 'prologue', 'derive', 'getstr'],
+    units=['arms', 'depth', 'wrap', 'rtmu', 'glue', 'prologue', 'derive', 'getstr', 'pphelp'],
     shims=['A-glue', 'A-path/fs', 'A-hashmap', 'A-pplex'],
     design='DESIGN.md 3/C10',
     technique='contract-based deductive verification (Verus) of the verbatim IncludeCompilerDirective arm incl. the include-path search loop; nested preprocessing as an uninterpreted function of named parameters',
